@@ -48,6 +48,7 @@ type c12DashCase struct {
 	Where     string        `json:"where,omitempty"`   // begin | rule | end
 	Twice     bool          `json:"twice,omitempty"`
 	NameForm  int           `json:"name_form,omitempty"`
+	NoArgVars bool          `json:"no_arg_vars,omitempty"` // Config.NoArgVars: operands shaped like var=value are FILE NAMES (seeded C12-r1)
 	Entry     string        `json:"entry,omitempty"` // public entry point, see c12Entries ("" = interp.ExecProgram)
 }
 
@@ -197,7 +198,7 @@ func c12DashRun(cs *c12DashCase, d string) (obs c12DashObs) {
 	}
 	var out, errw lockedWriter
 	cfg := &interp.Config{Output: &out, Error: &errw, Environ: []string{}, Vars: vars, Args: args, Funcs: funcs,
-		NoExec: cs.NoExec, NoFileWrites: cs.NoWrites, NoFileReads: cs.NoReads}
+		NoExec: cs.NoExec, NoFileWrites: cs.NoWrites, NoFileReads: cs.NoReads, NoArgVars: cs.NoArgVars}
 	if cs.StdinFile {
 		f, _ := os.Open(d + "/stdin.txt")
 		defer f.Close()
@@ -243,6 +244,9 @@ func c12DashOracle(cs *c12DashCase, obs *c12DashObs) (bad []c12Verdict) {
 	filesBeforeStop := map[string]bool{} // file operands read before the stop
 	for i, a := range operands {
 		cl := c12DashClass(a)
+		if cs.NoArgVars && a != "" && c12VarRegex.MatchString(a) {
+			cl = "missing" // with NoArgVars nothing is an assignment: the operand names a (relative, non-existent) file
+		}
 		if cl == "skip" {
 			continue
 		}
@@ -307,6 +311,9 @@ func c12DashOracle(cs *c12DashCase, obs *c12DashObs) (bad []c12Verdict) {
 	for _, h := range obs.Hook {
 		p := strings.SplitN(h, ":", 2)
 		seen[p[0]] = true
+		if cs.NoArgVars && p[0] != "?-" && strings.HasPrefix(p[0], "?") && c12VarRegex.MatchString(p[0][1:]) && !cs.NoReads {
+			continue // with NoArgVars an operand shaped like var=value IS a file operand (a relative name)
+		}
 		if p[0] == "?-" || strings.HasPrefix(p[0], "?") {
 			add("the configured OpenFile was asked for a name that is not a file operand (standard input is not opened through OpenFile)", h, "")
 		} else if !filesBeforeStop[p[0]] && !(stopWhy == "openFailed" && p[0] == operands[stop]) {
@@ -434,6 +441,9 @@ func c12DashCorpus() []c12DashCase {
 					if n%4 == 0 { // every fourth case through one of the Interpreter entry points, rotating
 						res[len(res)-1].Entry = c12Entries[(n/4+n/28)%len(c12Entries)]
 					}
+					if n%5 == 0 { // every fifth case with Config.NoArgVars: var=value-shaped operands are then file names
+						res[len(res)-1].NoArgVars = true
+					}
 				}
 			}
 		}
@@ -449,6 +459,7 @@ func c12DashRandom(c *vh.Ctx) c12DashCase {
 	if r.Intn(2) == 0 {
 		cs.Entry = c12Entries[r.Intn(len(c12Entries))]
 	}
+	cs.NoArgVars = r.Intn(4) == 0
 	pool := []string{"-", "-", "-", "", "x=7", "in0", "in1", "dd/-", "m0", "y=-", "-=1"}
 	for i, n := 0, r.Intn(6); i < n; i++ {
 		cs.Args = append(cs.Args, pool[r.Intn(len(pool))])
